@@ -180,6 +180,8 @@ func getParentFromKey(sp interface{}, key string) (string, string, interface{}, 
 	pth, _ := url.PathUnescape(key[1:])
 
 	parent, entry := path.Dir(pth), path.Base(pth)
+	// the entry is a JSON pointer token: callers use it as a key in the holder
+	entry = jsonpointer.Unescape(entry)
 	debugLog("getting schema holder at: %s, with entry: %s", parent, entry)
 
 	pptr, err := jsonpointer.New(parent)
